@@ -15,29 +15,29 @@ import (
 )
 
 type c04Scn struct {
-	N        int    `json:"n"`
-	Latency  string `json:"latency"` // zero | uniform | bimodal
-	PV       int    `json:"protocol_version"` // 0 = mixed
-	Indirect int    `json:"indirect_checks"`
-	TCPPing  bool   `json:"tcp_pings"`
-	Compress bool   `json:"compress"`
-	Enc      bool   `json:"encrypt"`
-	Label    string `json:"label"`
-	JoinMode string `json:"join_mode"` // burst | staggered
-	Ops      int    `json:"ops"`
+	N        int           `json:"n"`
+	Latency  string        `json:"latency"`          // zero | uniform | bimodal
+	PV       int           `json:"protocol_version"` // 0 = mixed
+	Indirect int           `json:"indirect_checks"`
+	TCPPing  bool          `json:"tcp_pings"`
+	Compress bool          `json:"compress"`
+	Enc      bool          `json:"encrypt"`
+	Label    string        `json:"label"`
+	JoinMode string        `json:"join_mode"` // burst | staggered
+	Ops      int           `json:"ops"`
 	Dur      time.Duration `json:"duration_ns"`
 }
 
 // healthyTap watches every packet and stream for accusations.
 type healthyTap struct {
-	mu       sync.Mutex
-	keys     [][]byte
-	label    string
-	bad      []string
-	byType   map[string]int64
-	pings    map[uint64]time.Time // (from,seq) -> sent
-	maxRTT   time.Duration
-	acks     int64
+	mu        sync.Mutex
+	keys      [][]byte
+	label     string
+	bad       []string
+	byType    map[string]int64
+	pings     map[uint64]time.Time // (from,seq) -> sent
+	maxRTT    time.Duration
+	acks      int64
 	streamBuf map[string][]byte // connID|dir -> bytes
 }
 
